@@ -386,6 +386,12 @@ func TestSim(t *testing.T) {
 	classPrefix := os.Getenv("VERIF_CLASS_PREFIX") // violations outside this prefix (other properties) are only counted
 	nontrivialProbe := os.Getenv("VERIF_NONTRIVIAL")
 	detCheck := envInt("VERIF_DETCHECK", 0) // re-run every k-th run and compare hashes
+	countOnly := map[string]bool{}
+	for _, c := range strings.Split(os.Getenv("VERIF_COUNT_ONLY"), "\x1f") {
+		if c != "" {
+			countOnly[c] = true
+		}
+	}
 
 	out := &workerOut{Scenario: scName, Outcomes: map[string]int{}, Faults: map[string]int{}, Probes: map[string]int{}, Sites: map[string]int{}, Violations: map[string]*violationOut{}}
 	sched := map[string]bool{}
@@ -455,6 +461,10 @@ func TestSim(t *testing.T) {
 		out.Violations[r.Class] = v
 		if matchKnown(r.Class, known) {
 			v.Known = true
+		}
+		if countOnly[r.Class] {
+			// an earlier worker process of this slot has already minimised and verified this class
+			continue
 		}
 		// minimise and verify
 		sb := 45 * time.Second
